@@ -1,4 +1,5 @@
 import InfOCFModel.Ops
+import InfOCFModel.Diag
 /-!
 Line-protocol driver: one request per line on stdin, one response per line on stdout.
 
@@ -101,6 +102,18 @@ def handle (line : String) : Except String (String × Bool) := do
       match partFor (wk == 1) Ω D with
       | none => pure ("none", true)
       | some P => pure (showPart P, true)
+    | "diag" =>
+      let n ← pnat
+      let ext ← pnat
+      let uf ← pnat
+      let D ← listOf pcond
+      let F ← listOf fm
+      let Ω := allWorlds n
+      let c := diagCode (ext == 1) (uf == 1) Ω D F
+      let s := diagSpec (ext == 1) (uf == 1) Ω D F
+      let sh (d : Diag) : String := String.join ([d.facts, d.bb, d.bbw, d.comb, d.infinc].map fun o =>
+        match o with | none => "-" | some b => bit b)
+      pure (sh c ++ "/" ++ sh s, c == s)
     | "ans" =>
       let n ← pnat
       let wk ← pnat
